@@ -434,11 +434,25 @@ func genCases(r *vh.RNG, clockwise bool) []Case {
 	if clockwise {
 		kind += "-cw"
 	}
+	// a query point strictly inside a cell: its centre, or the centre pulled towards one of its vertices (halving the
+	// distance 1..6 times: up to 63/64 of the way into a corner — the thin ends of wedge-shaped cells, where a bounding
+	// disc or a centre-based shortcut is most likely to be wrong)
+	inside := func(c cell) Pt {
+		p := c.in
+		if r.Chance(1, 3) {
+			return p
+		}
+		v := c.poly[r.Intn(len(c.poly))]
+		for k := r.Range(1, 6); k > 0; k-- {
+			p = avg(p, v)
+		}
+		return p
+	}
 	var out []Case
 	nq := r.Range(2, 4)
 	for k := 0; k < nq; k++ {
 		s, g := r.Intn(len(cells)), r.Intn(len(cells))
-		out = append(out, Case{Kind: kind, Mesh: mesh, Start: cells[s].in, Goal: cells[g].in})
+		out = append(out, Case{Kind: kind, Mesh: mesh, Start: inside(cells[s]), Goal: inside(cells[g])})
 	}
 	return out
 }
@@ -454,6 +468,9 @@ func corpus() []Case {
 		{Kind: "corpus", Mesh: [][]Pt{{P(0, 0), P(1, 0), P(1, 3), P(0, 3)}, {P(2, 0), P(3, 0), P(3, 3), P(2, 3)}}, Start: H(1, 3), Goal: H(5, 3)},
 		// T-junction: the top cell's edge is contained in the bottom cell's edge
 		{Kind: "corpus", Mesh: [][]Pt{{P(0, 0), P(4, 0), P(4, 2), P(0, 2)}, {P(1, 2), P(3, 2), P(3, 4), P(1, 4)}}, Start: H(1, 2), Goal: P(2, 3)},
+		// wedge-shaped cells (area centroid far from the vertex average) queried in their thin ends
+		{Kind: "corpus", Mesh: [][]Pt{{P(0, 0), P(16, 0), P(16, 1), P(0, 6)}, {P(0, 6), P(16, 1), P(16, 8), P(0, 8)}}, Start: H(31, 1), Goal: H(1, 15)},
+		{Kind: "corpus", Mesh: [][]Pt{{P(0, 0), P(1, 0), P(12, 5), P(12, 6), P(0, 6)}, {P(12, 5), P(14, 5), P(14, 6), P(12, 6)}}, Start: H(23, 11), Goal: H(27, 11)},
 		// around a corner
 		{Kind: "corpus", Mesh: [][]Pt{{P(0, 0), P(2, 0), P(2, 2), P(0, 2)}, {P(2, 0), P(4, 0), P(4, 2), P(2, 2)}, {P(2, 2), P(4, 2), P(4, 4), P(2, 4)}, {P(2, 4), P(4, 4), P(4, 6), P(2, 6)}, {P(0, 4), P(2, 4), P(2, 6), P(0, 6)}},
 			Start: H(1, 1), Goal: H(1, 11)},
@@ -498,7 +515,7 @@ func main() {
 		return
 	}
 	out := vh.NewOut(f.Out, "nav", "From MV Require Import Lib.ListX C20.GeomModel C20.GeomRun C20.NavModel C20.NavRun.", "case", "mismatches", f.Seed,
-		"nav meshes tiled from a random lattice (1..4 x 1..4 cells, quarter coordinates): rectangles, holes, merged cells (T-junctions), cells split into triangles, jittered lattice points (general convex quadrilaterals); vertex order counter-clockwise, for one mesh in three clockwise; 2-4 start/goal pairs strictly inside random cells; every returned path goes through the Coq checker path_ok; non-trivial = the returned path has >= 3 points (at least one turn at a portal end point); distinct by hash of the whole case")
+		"nav meshes tiled from a random lattice (1..4 x 1..4 cells, quarter coordinates): rectangles, holes, merged cells (T-junctions), cells split into triangles, jittered lattice points (general convex quadrilaterals); vertex order counter-clockwise, for one mesh in three clockwise; 2-4 start/goal pairs strictly inside random cells (the centre, or the centre pulled up to 63/64 of the way into a corner); every returned path goes through the Coq checker path_ok; non-trivial = the returned path has >= 3 points (at least one turn at a portal end point); distinct by hash of the whole case")
 	out.PerShard = 100
 	rng := vh.NewRNG(f.Seed)
 	for _, c := range corpus() {
